@@ -51,6 +51,11 @@ func runC09(args []string) {
 			}
 			m.battery(a, b, i%10 == 0)
 		}
+		// operands crafted for the carries of the word-level Montgomery multiplication (see montCarryPairs): the portable,
+		// the generic and the assembly multiplications must agree on them too
+		for _, pr := range montCarryPairs(f, rng) {
+			m.battery(pr[0], pr[1], false)
+		}
 		var lens []int
 		if f.Limbs == 4 || f.WBits == 32 { // fields with vector assembly: every length and tail
 			for n := 0; n <= 70; n++ {
